@@ -713,6 +713,20 @@ def _run_yaml(case, mon):
                                   f"fiber dump->fromYAMLfile changed the content: {_diff(got, want)}")
                         probs = WF(f2)
                         mon.check(not probs, "yaml:fiber:malformed", f"reloaded fiber malformed: {probs[:2]}")
+                # the file has no field for the default: a caller who knows it hands it to fromYAMLfile(), and the reloaded
+                # one-rank fiber then has that default and the same stored elements (so the same content under that default)
+                if root.coords and not isinstance(root.payloads[0], Fiber):
+                    for dd in (5, -1.5):
+                        ok, f3 = _call(mon, "Fiber.fromYAMLfile", lambda dd=dd: Fiber.fromYAMLfile(fpath, default=dd), tq)
+                        if ok and isinstance(f3, Fiber):
+                            mon.count("yaml_fiber_reloads_with_default")
+                            gd = unbox(f3.getDefault())
+                            mon.check(type(gd) is type(dd) and gd == dd, "yaml:fiber:caller-default-dropped" + tq,
+                                      f"Fiber.fromYAMLfile(path, default={dd!r}) returned a fiber whose default is {gd!r}")
+                            raw0 = [(c, unbox(p_)) for c, p_ in zip(root.coords, root.payloads)]
+                            raw3 = [(c, unbox(p_)) for c, p_ in zip(f3.coords, f3.payloads)]
+                            mon.check(_same(raw0, raw3), "yaml:fiber:content:with-caller-default" + tq,
+                                      f"fiber dump->fromYAMLfile(default={dd!r}) stores {raw3}, the dumped fiber stored {raw0}")
             _dict_roundtrip(mon, root, want, tq)
         else:
             ok, d = _call(mon, "Payload.payload2dict", lambda: Payload.payload2dict(root))
